@@ -1078,7 +1078,9 @@ def o_c06_addressable(recs):
 def o_c11_reset_agrees(recs):
     """C11, last clause: `reset HEAD@{n}` resolves position n to the entry `reflog` shows there (C08 oracle's
     verdict on reset steps)"""
-    return [(i, m) for i, m in o_c08(recs) if recs[i].step.kind == "cmd" and recs[i].step.name == "reset"]
+    keep = ("reflog shows", "branch at", "accepted", "valid reset")
+    return [(i, m) for i, m in o_c08(recs)
+            if recs[i].step.kind == "cmd" and recs[i].step.name == "reset" and any(k in m for k in keep)]
 
 
 def o_c08_positions(recs):
